@@ -985,7 +985,7 @@ def stream_datefmt(ck, model_ok, dateinfo):
                 ck.disagreement("date format %r (%s): model %r, implementation %r" % (f, dialect, mt, "a compile error" if rejected else got[0]),
                                 dict(case, stream="sqltext", model=mt, impl=None if rejected else got[0]), classify_text)
                 continue
-            if rejected or dialect != "duckdb" or any(x not in "YmdHMS%" for x in re_findall_specs(f)) or any(ord(ch) > 126 for ch in f):
+            if rejected or dialect != "duckdb" or "%-" in f or any(x not in "YmdHMS%" for x in re_findall_specs(f)) or any(ord(ch) > 126 for ch in f):
                 continue
             sql = got[0]
             i = sql.find(", '")
@@ -1106,7 +1106,7 @@ def stream_directed(ck):
                                     {"stream": "sqltext", "dialect": dialect, "pl_literals": [str(z) for z in vals], "model": want, "impl": got, "answer": a if got is None else None},
                                     classify_text)
     # findings that live in tables / non-executable dialects: confirm the recorded emission
-    for key, target, want in (("N3", "sql.sqlite", "a REGEXP b < c"), ("N4", "sql.bigquery", "(a + b * 180 / PI())")):
+    for key, target, want in (("N3", "sql.sqlite", "a REGEXP b < c"), ("N4", "sql.bigquery", "(a + b * 180 / PI())"), ("N9", "sql.postgres", "a ~ b ~ c")):
         f = [x for x in ck.findings if x["id"] == F[key]]
         if not f:
             continue
